@@ -478,7 +478,28 @@ class Inliner:
                 return False
             return len(st.body) + len(st.orelse) <= 3 and all(simple(x) for x in st.body + st.orelse)
 
+        def map_loop(st):
+            """for T in map(helper, X): B   ->   for m in X: T = helper(m); B"""
+            if not (isinstance(st, ast.For) and isinstance(st.iter, ast.Call) and isinstance(st.iter.func, ast.Name) and st.iter.func.id == "map" and
+                    len(st.iter.args) == 2 and not st.iter.keywords and isinstance(st.iter.args[0], (ast.Name, ast.Attribute))):
+                return None
+            fake = ast.Call(func=st.iter.args[0], args=[ast.Name(id="_", ctx=ast.Load())], keywords=[])
+            h, recv = self._helper_of(fake, cls, self_name, fn)
+            if h is None:
+                return None
+            self.counter += 1
+            var = "mapped_i%d" % self.counter
+            call = ast.Call(func=st.iter.args[0], args=[ast.Name(id=var, ctx=ast.Load())], keywords=[])
+            first = ast.Assign(targets=[st.target], value=call, lineno=st.lineno)
+            new = ast.For(target=ast.Name(id=var, ctx=ast.Store()), iter=st.iter.args[1], body=[ast.copy_location(first, st)] + list(st.body),
+                          orelse=st.orelse, lineno=st.lineno)
+            return ast.fix_missing_locations(ast.copy_location(new, st))
+
         def rewrite_stmt(st):
+            ml = map_loop(st)
+            if ml is not None:
+                changed[0] = True
+                st = ml
             loop_form = comprehension_as_loop(st)
             if loop_form is not None:
                 changed[0] = True
